@@ -349,6 +349,17 @@ def run_op(t, op, baton=None, tid=0):
             if op.get('join_missing'):
                 t.engine.query(op['query'], t.engine.TableIterator(rows, header), t.engine.TableWriter(out), warnings, t.engine.ListTableRegistry([]))
                 return norm(['ok', out, None, warnings])
+            if op.get('omit_optional') and op.get('normalize', True) and not op.get('init'):
+                # the shortest legal call: every optional argument the operation does not need is left to its default
+                args = [op['query'], rows, out, warnings]
+                if join_rows is not None or header is not None or jheader is not None:
+                    args.append(join_rows)
+                if header is not None or jheader is not None:
+                    args.append(header)
+                if jheader is not None:
+                    args.append(jheader)
+                t.engine.query_table(*args)
+                return norm(['ok', out, None, warnings])
             t.engine.query_table(op['query'], rows, out, warnings, join_rows, header, jheader, out_header, op.get('normalize', True), op.get('init', ''))
             return norm(['ok', out, out_header, warnings])
         if api == 'df':
@@ -491,7 +502,14 @@ def child_history(sc):
     before = process_state()
     try:
         for op in sc['ops']:
-            outs.append(run_op(t, op))
+            if op.get('from_handler'):
+                # a caller's fallback query, issued from the except block that caught an earlier failure
+                try:
+                    raise RuntimeError('an earlier step of the caller failed')
+                except RuntimeError:
+                    outs.append(run_op(t, op))
+            else:
+                outs.append(run_op(t, op))
             states.append(module_state(t))
     finally:
         if _hist.get('con') is not None:
@@ -587,6 +605,8 @@ _ref_cache = {}
 
 
 def reference(op):
+    if 'from_handler' in op:
+        op = {k: v for k, v in op.items() if k != 'from_handler'}     # how it is issued in a history is not part of the operation alone
     k = core.digest(op)
     r = _ref_cache.get(k)
     if r is None:
@@ -658,6 +678,12 @@ def generate(rng, tier, idx):
                 if rng.random() < 0.5 and o['rows']:
                     o['rows'] = [list(r) for r in o['rows']]
                     o['rows'][rng.randrange(len(o['rows']))][1] = rng.choice(['v\u00e9', 'Zo\u00eb', 'v1'])
+        short_calls = rng.random() < 0.25     # a caller that never passes the optional arguments (per history, so that two such calls meet)
+        for i, o in enumerate(ops):
+            if o['api'] == 'table' and (short_calls or rng.random() < 0.1):
+                o['omit_optional'] = True
+            if i > 0 and rng.random() < 0.12:
+                o['from_handler'] = True
         return {'part': 'A', 'ops': ops}
     n = 2 if rng.random() < (0.85 if tier == 'quick' else 0.7) else 3
     kinds = rng.sample(THREAD_KINDS, n)
@@ -830,3 +856,10 @@ def shrinks(sc):
             nop['api'] = 'table'
             c['ops'] = ops[:oi] + [nop] + ops[oi + 1:]
             yield c
+        for flag in ('omit_optional', 'from_handler'):
+            if op.get(flag):
+                c = dict(sc)
+                nop = dict(op)
+                nop.pop(flag)
+                c['ops'] = ops[:oi] + [nop] + ops[oi + 1:]
+                yield c
